@@ -76,7 +76,7 @@ PROPS = {
                 "invoked with arguments generated from its parameter types (ints incl. MinInt/MaxInt, strings, tri-state booleans, values incl. stacks / conditions / awkward "
                 "values, errors, operators, closures, auxiliary maps) singly and in sequences of 1-4 on read-only instances of every kind and content (nested trees, capacity, "
                 "mutex); the deep dump (VerifDump of the instance and of every nested Stack / Condition: content, every config field, closure / logger / aux identities) is "
-                "compared before and after every call; Free must report an error; finally SetReadOnly(false) must give back exactly the initial state and Push must work again",
+                "compared before and after every call; Free must report an error; finally SetReadOnly(false) must give back exactly the initial state and Push must work again Extra step (testing, supports the theorems): SetReadOnly(true) called while another goroutine's Push sits inside its critical section on a mutex-enabled stack - once the call has returned the instance does not change any more (harness roprobe, deterministic)",
         "modelled": COMMON_MODELLED + ["method bodies inside the guards are arbitrary in the skeleton theorems; the guards themselves are tied to the source by the regenerated facts"],
         "assumptions": ["SetID(\"_random\") is not generated (non-deterministic); it is behind the same guard as SetID(fixed)"],
     },
